@@ -336,4 +336,23 @@ PROPS = {
         "assumptions": ["stdlib errors.New(text) is an error that contributes nothing but its text"],
         "parts": [rapid("hidden", "TestProp", 4000, 80000)],
     },
+    "C18": {
+        "pkg": "c18",
+        "race": True,
+        "level": "exploration",
+        "level_text": "Generated search under the Go race detector: for every generated tree (local or decoded) two identical errors are built; one, still "
+                      "untouched (so that a lazily filled cache would first be written concurrently), is shared by 16 goroutines released together, each running "
+                      "every read-only operation of the property (all verbs through fmt and Formattable, redactable and redacted renderings, encode+marshal, every "
+                      "accessor, safe details, report building, Is/IsAny against the sentinel pool, As for 19 targets, hint/detail collection), for 3 rounds; every "
+                      "goroutine's result must equal the result of running alone on the twin error, and a final solo run on the shared error must as well. The "
+                      "race detector (halt_on_error) turns any unsynchronised conflicting access that occurs into a failure, independent of the timing of the run.",
+        "level_note": "The harness does not own the scheduler: a defect that needs a particular interleaving of properly synchronised operations would be found only by "
+                      "luck; the detector finds unsynchronised accesses that actually occur in the run, which covers lazy caches, memoisation and shared scratch buffers.",
+        "technique": "property-based testing (rapid) under the Go race detector: concurrent-vs-solo result equality on a fresh shared error, many goroutines and rounds",
+        "rule": "rapid-generated trees (boosted: barriers, tags, secondary errors, Mark, Join, safe details, stacks), local or decoded; 16 goroutines x 3 rounds per "
+                "tree. Non-trivial = at least 3 spec nodes. Distinct = hash of the case JSON.",
+        "assumptions": ["Go race detector semantics (happens-before based, reports races that occur)"],
+        "parts": [rapid("concurrent-readers", "TestProp", 160, 3200)],
+        "timeout": {"quick": 900, "thorough": 7200},
+    },
 }
